@@ -322,6 +322,20 @@ func Mul(a, b *Term) *Term {
 			flat = append(flat, x)
 		}
 	}
+	// x*1 is x exactly in IEEE-754 arithmetic: drop unit factors
+	if len(flat) > 1 {
+		kept := flat[:0:0]
+		for _, x := range flat {
+			if f, ok := isFloatConst(x); ok && f == 1 {
+				continue
+			}
+			kept = append(kept, x)
+		}
+		if len(kept) == 0 {
+			kept = append(kept, flat[0])
+		}
+		flat = kept
+	}
 	sort.SliceStable(flat, func(i, j int) bool { return flat[i].Key() < flat[j].Key() })
 	var t *Term
 	if len(flat) == 1 {
